@@ -56,6 +56,10 @@ fn main() {
         i += 2;
     }
     guard::install_panic_hook();
+    // no single allocation above 2 GiB (a runaway Vec - the backing store's, or one inside
+    // the crate - then ends the worker with an allocation failure, which the driver turns
+    // into a finding, instead of waking the kernel's OOM killer)
+    guard::set_alloc_cap(2 << 30);
     if ctx.prop != "C14" {
         // C14 installs its own (global, multi-threaded) observer
         guard::install_lock_discipline();
